@@ -243,6 +243,15 @@ U_MutSafe  == U_Chain({U_None, U_D(PrNone, "N", "N", "F", U_Md)}, U_DSafe, U_DSa
 U_MutKinds == U_Dec({U_Map1(U_KA, x) : x \in U_Dec(U_KindLeaves \cup {U_Null, U_Apply(U_S("a\\b"), U_D(1, "N", "N", "N", {}))}, U_DKind)}, {U_None})
 U_MutNewP == U_Chain({U_None}, {U_D(PrNone, "N", "F", "N", {}), U_D(PrNone, "N", "F", "N", U_Md)}, U_DNewZ, {"extend", "dict"}, {U_Map1(U_KA, U_I("1"))}, {})
 U_MutKindsP == U_Dec({U_Map1(U_KA, x) : x \in U_KindLeaves}, {U_D(1, "N", "N", "N", {}), U_D(-1, "N", "N", "N", U_Md)})
+\* `!path` nodes with every kind of reference point (AyDump: source files): `file` / `parent` / `parent(n)` evaluate relative
+\* to the node's source file, which the dump writes into the mapping; alone, below a mapping / list / another !path,
+\* decorated (a `!path:<ref>{{..}}` tag), next to each other
+U_PathLeaves == {U_Path("parent", <<U_S("x")>>), U_Path("parent(1)", <<U_S("x"), U_S("y")>>), U_Path("file", <<>>),
+                 U_Path("cwd", <<U_S("x")>>), U_Path("", <<U_S("x")>>)}
+U_DPath == {U_None, U_D(1, "N", "N", "N", {}), U_D(PrNone, "F", "N", "N", U_Md), U_D(PrNone, "N", "N", "N", U_Md)}
+U_QPaths == U_Chain({U_None, U_D(1, "N", "N", "N", U_Md)}, U_DPath, U_DPath, {"dict", "list", "pathp"}, U_PathLeaves, U_PathLeaves)
+            \cup {U_Map2(x, y) : x \in U_PathLeaves, y \in U_PathLeaves}
+U_MutPaths == {U_Map1(U_KA, x) : x \in U_PathLeaves} \cup {U_Map1(U_KA, U_Wrap(xk, z)) : xk \in {"dict", "pathp"}, z \in U_PathLeaves}
 \* three-stage histories in the quick tier
 U_Q3 == U_Chain({U_None, U_D(PrNone, "T", "N", "N", U_Md)}, U_DDelZ, U_DDelZ, {"dict", "list"}, {U_I("1"), U_EList}, {U_EList})
         \cup U_Chain({U_None, U_D(PrNone, "N", "F", "N", U_Md)}, U_DNewZ, U_DNewZ, {"dict"}, {U_EMap}, {U_I("1")})
